@@ -16,23 +16,21 @@ JOBS = []
 for t in ['i32', 'i64', 'float', 'double']:
     JOBS.append(dict(name='c16_rgm_%s' % t, entry='h_rgm_numeric', defines=['CQV_T=%d' % T[t], 'CQV_MEMSET_EXACT=64'],
                      functions=RGM_FUNCS + [CMP[t]], replayer=rgm_replayer(t), wip=True, **RD))
-for t in ['float', 'double']:
-    JOBS.append(dict(name='c16_rgm_%s_probe_not_nan' % t, entry='h_rgm_numeric',
-                     defines=['CQV_T=%d' % T[t], 'CQV_MEMSET_EXACT=64', 'CQV_PROBE_NOT_NAN=1'],
-                     functions=RGM_FUNCS + [CMP[t]], replayer=rgm_replayer(t), level='bounded', bound='probe value is not NaN (NaN probe: see c16_rgm_%s)' % t,
-                     wip=True, **RD))
 # statistics fields of arbitrary length: no read beyond the field
 for t in ['i32', 'i64', 'float', 'double', 'bool']:
     JOBS.append(dict(name='c16_rgm_%s_anylen' % t, entry='h_rgm_numeric_anylen', defines=['CQV_T=%d' % T[t], 'CQV_MEMSET_EXACT=64'],
                      functions=RGM_FUNCS, wip=True,
                      replayer=dict(kind='direct', harness='replay/direct/stats_rgm_anylen_%s.c' % RN.get(t, t), sources=[],
                                    vars=dict(present='present', l1='l1', l2='l2', l3='l3', l4='l4')), **RD))
-for t in ['bytes', 'flba']:
+for t in ['bytes', 'flba', 'bool']:
     JOBS.append(dict(name='c16_rgm_%s' % t, entry='h_rgm_bytes', defines=['CQV_T=%d' % T[t], 'CQV_MEMSET_EXACT=64', 'CQV_MAXLEN=8'],
                      level='bounded', bound='value, min, max and the witness value x at most 8 bytes each',
                      functions=RGM_FUNCS + ['compare_bytes'], wip=True, **RD))
     JOBS.append(dict(name='c16_rgm_%s_safety' % t, entry='h_rgm_bytes_safety', defines=['CQV_T=%d' % T[t], 'CQV_MEMSET_EXACT=64'],
                      functions=RGM_FUNCS + ['compare_bytes'], wip=True, **RD))
+
+JOBS.append(dict(name='c16_column_statistics', entry='h_column_statistics', defines=['CQV_T=0', 'CQV_MEMSET_EXACT=64'],
+                 functions=['carquet_reader_column_statistics'], wip=True, **RD))
 
 # 2. filter_row_groups: enforce contract; row_group_matches replaced by its (outcome-naming) contract
 JOBS.append(dict(name='c16_filter_row_groups', entry='h_filter_row_groups', enforce='carquet_reader_filter_row_groups',
@@ -52,9 +50,113 @@ for t in ['bool', 'i32', 'i64', 'float', 'double']:
     JOBS.append(dict(name='c16_builder_add_values_%s' % t, entry='h_add_values', enforce='carquet_statistics_add_values',
                      defines=['CQV_BT=%d' % BT[t], 'CQV_STATS_EXACT=8'], min_loop_obligations=1, wip=True, **AV, **BD))
 for t in ['float', 'double']:
-    JOBS.append(dict(name='c16_builder_add_values_%s_no_nan' % t, entry='h_add_values', enforce='carquet_statistics_add_values',
-                     defines=['CQV_BT=%d' % BT[t], 'CQV_NO_NAN=1', 'CQV_STATS_EXACT=8'], min_loop_obligations=1, level='bounded',
-                     bound='no NaN among the values added and in the bounds so far (NaN case: see c16_builder_add_values_%s)' % t,
-                     wip=True, **AV, **BD))
+    JOBS.append(dict(name='c16_builder_%s_seq' % t, entry='h_builder_fp_seq', loop_contracts=False, unwind=17,
+                     defines=['CQV_BT=%d' % BT[t], 'CQV_STATS_EXACT=8'], level='bounded', bound='fresh builder, one add_values call with 1..3 values',
+                     functions=['carquet_statistics_add_values', 'carquet_statistics_builder_create', 'compare_%s' % t],
+                     replayer=dict(kind='direct', harness='replay/direct/stats_builder_%s.c' % RN[t], sources=['src/core/arena.c'],
+                                   vars=dict(v0bits='v0bits', v1bits='v1bits', v2bits='v2bits', n='n')),
+                     wip=True, **BD))
+# FLBA wider than the min/max storage is rejected before anything is written (loop cut by its contract, not reached)
+JOBS.append(dict(name='c16_builder_flba_wide', entry='h_flba_wide', defines=['CQV_BT=7', 'CQV_STATS_EXACT=8'],
+                 functions=['carquet_statistics_add_values', 'get_value_size'], wip=True, **AV, **BD))
+BSEQ = ['carquet_statistics_add_byte_arrays.0:4', 'memcmp.0:9', 'memcpy.0:9', 'memset.0:97']
+JOBS.append(dict(name='c16_builder_byte_arrays_seq', entry='h_byte_arrays_seq', loop_contracts=False, unwindset=BSEQ,
+                 defines=['CQV_BT=6', 'CQV_STATS_EXACT=8', 'CQV_MEMSET_EXACT=96'], level='bounded',
+                 bound='fresh builder, one add_byte_arrays call with 1..3 values; order claim for values of at most 8 bytes, absence claim for any value > 256 bytes',
+                 functions=['carquet_statistics_add_byte_arrays', 'carquet_statistics_build', 'compare_byte_array', 'carquet_statistics_builder_create'],
+                 timeout=300, wip=True, **BD))
+JOBS.append(dict(name='c16_builder_build', entry='h_build', loop_contracts=False, unwindset=['memcpy.0:9', 'memset.0:97'],
+                 defines=['CQV_BT=6', 'CQV_STATS_EXACT=8', 'CQV_MEMSET_EXACT=96'], functions=['carquet_statistics_build'], wip=True, **BD))
 JOBS.append(dict(name='c16_builder_add_nulls', entry='h_add_nulls', loop_contracts=False, functions=['carquet_statistics_add_nulls'],
                  defines=['CQV_BT=1'], wip=True, **BD))
+
+# 4. page writer running statistics (src/writer/page_writer.c: update_statistics_*)
+PW = dict(prop='C16', harness='harness/C16/page_writer_stats.c', overlays=['contracts/page_writer_stats.ovl'], includes=['.'],
+          extra_sources=STUBS, trusted=TR)
+# Tool limitation: the legacy loop-contract pass does not accept the memcpy stub's byte writes into the loop-body locals
+# `min_v`/`max_v` (memcpy(&min_v, writer->min_value, 4)) as assignable; that frame check of the stub (same text for
+# every memcpy call site) is reported as a supporting fact, not counted.  Destination ranges are still checked by
+# memcpy's w_ok precondition and all sizes are the constants 4/8 <= 64.
+PW_SOFT = [r'^Check that \(\(uint8_t \*\)dst\)\[.*\] is assignable']
+PWT = dict(i32=0, i64=1, float=2, double=3)
+PW_SRCS = ['src/core/buffer.c', 'src/core/bitpack.c', 'src/encoding/plain.c', 'src/encoding/rle.c', 'src/thrift/thrift_encode.c',
+           'src/compression/snappy.c', 'src/compression/lz4.c', 'src/compression/gzip.c', 'src/compression/zstd.c', 'src/util/crc32.c']
+for t in ['i32', 'i64', 'float', 'double']:
+    JOBS.append(dict(name='c16_pw_update_statistics_%s' % t, entry='h_update_statistics', enforce='update_statistics_%s' % t,
+                     defines=['CQV_PW=%d' % PWT[t], 'CQV_STATS_EXACT=8'], unwindset=['memcpy.0:9'], min_loop_obligations=1,
+                     timeout=300, soft=PW_SOFT, wip=True, **PW))
+for t in ['float', 'double']:
+    JOBS.append(dict(name='c16_pw_update_statistics_%s_first_not_nan' % t, entry='h_update_statistics', enforce='update_statistics_%s' % t,
+                     defines=['CQV_PW=%d' % PWT[t], 'CQV_STATS_EXACT=8', 'CQV_PW_FIRST_NOT_NAN=1'], unwindset=['memcpy.0:9'],
+                     min_loop_obligations=1, timeout=300, soft=PW_SOFT, level='bounded',
+                     bound='the value that initialises min/max (first value of a page, or the bounds so far) is not NaN; NaN-first: see c16_pw_update_statistics_%s' % t,
+                     wip=True, **PW))
+    JOBS.append(dict(name='c16_pw_%s_seq' % t, entry='h_pw_fp_seq', loop_contracts=False, unwind=9,
+                     defines=['CQV_PW=%d' % PWT[t], 'CQV_STATS_EXACT=8'], level='bounded', bound='page statistics reset, one update with 1..3 values',
+                     functions=['update_statistics_%s' % t],
+                     replayer=dict(kind='direct', harness='replay/direct/stats_pw_%s.c' % RN[t], sources=PW_SRCS,
+                                   vars=dict(v0bits='v0bits', v1bits='v1bits', v2bits='v2bits', n='n')),
+                     wip=True, **PW))
+
+# 5. helpers: statistics_compare, range_overlaps (statistics.c), page_might_match (page_index.c): loop-free lemmas
+for t in ['i32', 'i64', 'float', 'double']:
+    JOBS.append(dict(name='c16_stats_compare_%s' % t, entry='h_stats_compare', loop_contracts=False, defines=['CQV_BT=%d' % BT[t], 'CQV_STATS_EXACT=8'],
+                     functions=['carquet_statistics_compare', 'compare_%s' % dict(i32='int32', i64='int64').get(t, t)], wip=True, **BD))
+    JOBS.append(dict(name='c16_range_overlaps_%s' % t, entry='h_range_overlaps', loop_contracts=False, defines=['CQV_BT=%d' % BT[t], 'CQV_STATS_EXACT=8'],
+                     functions=['carquet_statistics_range_overlaps', 'compare_%s' % dict(i32='int32', i64='int64').get(t, t)], wip=True, **BD))
+PI = dict(prop='C16', harness='harness/C16/page_index.c', overlays=['contracts/page_index.ovl'], includes=['.'], extra_sources=STUBS,
+          trusted=TR, loop_contracts=False, functions=['carquet_column_index_page_might_match'])
+JOBS.append(dict(name='c16_page_might_match_i32', entry='h_page_might_match_i32', defines=['CQV_PT=1'], wip=True,
+                 replayer=dict(kind='direct', harness='replay/direct/stats_page_might_match.c',
+                               sources=['src/core/buffer.c', 'src/thrift/thrift_encode.c'],
+                               vars=dict((v, v) for v in ['pmin', 'pmax', 'qmin', 'qmax', 'x', 'present'])), **PI))
+JOBS.append(dict(name='c16_page_might_match_bytes', entry='h_page_might_match_bytes', defines=['CQV_PT=6'], level='bounded',
+                 bound='page min/max 1..8 bytes, query values and the witness value at most 8 bytes', wip=True, **PI))
+
+# ---- status ------------------------------------------------------------------------------------------------
+# wip=False only for jobs that are ok on the unchanged tree AND failed on a deliberately broken copy.
+# Jobs listed here fail on the unchanged /repo because the real code violates C16 (findings; contracts kept strong).
+F_NE_NAN = ('FINDING: carquet_reader_row_group_matches, FLOAT/DOUBLE column, op NE, probe value NaN: compare_float/double return 0 for '
+            'unordered operands, so cmp_min == 0 && cmp_max == 0 and the group is pruned although every row satisfies x != NaN '
+            '(native: replay/direct/stats_rgm_f32.c reproduced)')
+F_OVERREAD = ('FINDING: carquet_reader_row_group_matches reads sizeof(type) bytes from statistics fields whose length is only checked '
+              'to be > 0 (BOOLEAN statistics are 1 byte and are read as int32; short/corrupt min/max of INT32/INT64/FLOAT/DOUBLE): '
+              'heap over-read, ASan reproduced (replay/direct/stats_rgm_anylen_*.c)')
+F_B_NAN = ('FINDING: carquet_statistics_add_values FLOAT/DOUBLE: compare_float sorts NaN above everything, so one NaN makes max = NaN; '
+           'NaN max is not an IEEE upper bound (reader then prunes GT/GE wrongly). Native: replay/direct/stats_builder_f32.c reproduced')
+F_PW_NAN = ('FINDING: update_statistics_float/double: a NaN first value initialises min = max = NaN and no later value replaces them '
+            '(v < NaN and v > NaN are false): page statistics are not bounds. Native: replay/direct/stats_pw_f32.c reproduced')
+F_PMM = ('FINDING: carquet_column_index_page_might_match compares plain little-endian numeric bounds with memcmp although the builder '
+         'knows the type: false negatives for INT32 (e.g. page max 1073805950, query min -1065289090, or query min 255 vs page max 256). '
+         'Native: replay/direct/stats_page_might_match.c reproduced')
+NOTES = {
+    'c16_rgm_float': F_NE_NAN, 'c16_rgm_double': F_NE_NAN,
+    'c16_rgm_i32_anylen': F_OVERREAD, 'c16_rgm_i64_anylen': F_OVERREAD, 'c16_rgm_float_anylen': F_OVERREAD,
+    'c16_rgm_double_anylen': F_OVERREAD, 'c16_rgm_bool_anylen': F_OVERREAD,
+    'c16_builder_add_values_float': F_B_NAN, 'c16_builder_add_values_double': F_B_NAN,
+    'c16_builder_float_seq': F_B_NAN, 'c16_builder_double_seq': F_B_NAN,
+    'c16_pw_update_statistics_float': F_PW_NAN, 'c16_pw_update_statistics_double': F_PW_NAN,
+    'c16_pw_float_seq': F_PW_NAN, 'c16_pw_double_seq': F_PW_NAN,
+    'c16_page_might_match_i32': F_PMM,
+}
+# ok on /repo and seen failing on the broken scratch copy (see report)
+VALIDATED = set('''c16_rgm_i32 c16_rgm_i64 c16_rgm_float_probe_not_nan c16_rgm_double_probe_not_nan c16_rgm_bytes c16_rgm_flba
+c16_rgm_bytes_safety c16_rgm_flba_safety c16_filter_row_groups c16_builder_add_values_bool c16_builder_add_values_i32
+c16_builder_add_values_i64 c16_builder_add_values_float_total_order c16_builder_add_values_double_total_order c16_builder_add_nulls
+c16_stats_compare_i32 c16_stats_compare_i64 c16_stats_compare_float c16_stats_compare_double c16_range_overlaps_i32
+c16_range_overlaps_i64 c16_range_overlaps_float c16_range_overlaps_double c16_page_might_match_bytes
+c16_pw_update_statistics_i32 c16_pw_update_statistics_i64 c16_pw_update_statistics_float_first_not_nan
+c16_pw_update_statistics_double_first_not_nan'''.split())
+EST = {'c16_filter_row_groups': 60, 'c16_pw_update_statistics_i32': 40, 'c16_pw_update_statistics_i64': 60,
+       'c16_pw_update_statistics_float': 60, 'c16_pw_update_statistics_double': 100,
+       'c16_pw_update_statistics_float_first_not_nan': 60, 'c16_pw_update_statistics_double_first_not_nan': 100}
+for j in JOBS:
+    if j['name'] in NOTES:
+        j['wip'] = True
+        j['note'] = NOTES[j['name']]
+    elif j['name'] in VALIDATED:
+        j['wip'] = False
+    if j['name'] in EST:
+        j['est_s'] = EST[j['name']]
+    if j['name'] in ('c16_pw_update_statistics_double', 'c16_pw_update_statistics_double_first_not_nan'):
+        j['tier'] = 'thorough'   # ~100 s unloaded, 300 s on a loaded machine
